@@ -108,8 +108,15 @@ def run(ctx, configs=None):
         ctx.ob("C01.sole-reader", len(roles.read_sites) == 1, "transport read sites: %d" % len(roles.read_sites), fn=fr.path, construct="read-sites", nontrivial=False)
         allowed = {fr.path, roles.f_new.path} | {b.path for b in prog.find(r"^packet::PacketConn::<\w+>::switch_to_tls$")}
         writers = {}
+        def _pc_field(place, f):
+            return any(isinstance(e, dict) and e.get("n") == f and str(e.get("of") or "").startswith("packet::PacketConn<") for e in place.get("p", []))
         for b in prog.non_test_fns():
             if "packet::PacketConn<" not in (b.raw.get("impl_self") or ""):
+                # code outside the connection type (or a new helper of it inlined there) that stores to a window field or borrows it mutably
+                for f in ("bytes", "start", "remaining"):
+                    if any(s["k"] == "assign" and (_pc_field(s["lhs"], f) or (s["rv"]["k"] == "ref" and s["rv"].get("mut") and _pc_field(s["rv"]["place"], f)))
+                           for _, _, s in b.stmts()):
+                        writers.setdefault(f, set()).add(b.path)
                 continue
             wf = prog.writes_fields(b.path, 1) if b.raw.get("sig_in") and b.raw["sig_in"][0].startswith("&mut") else set()
             for f in ("bytes", "start", "remaining"):
